@@ -129,7 +129,7 @@ func stOnProbe(k int, j int) {
 // (on failure) the first diagnostic right after the failing probe, naming its line.
 func matchEvents(wantErr bool, strayLine int, stray bool) {
 	n := verifNumEvents()
-	t := 0       // index into the reference events
+	t := 0 // index into the reference events
 	sawErr := false
 	for i := 0; i < n; i++ {
 		kind := verifEventKind(i)
